@@ -1,6 +1,229 @@
-(* C20 -- stub, replaced below *)
-From DV Require Import Model.Delay.
-From Coq Require Import ZArith.
-Theorem C20_stub : DelayExamples.mon = DelayExamples.mon.
-Proof. reflexivity. Qed.
-Print Assumptions C20_stub.
+(* C20 -- Timer events are computable, land on their moment, keep recurring.
+   Property theorems only; proofs live in Proofs/DelayProofs.v.
+
+   Domain of the theorems: every clock instant whose date is valid and whose
+   year is <= 9998 (at the very end of year 9999 python's datetime overflows),
+   every specification that dawgie.schedule / compliant.rule_10 accept with
+   dow in 0..6, dom in 1..31, a valid date, or boot. *)
+From Coq Require Import ZArith List Bool Lia.
+From DV Require Import Model.Delay Proofs.DelayProofs.
+Import ListNotations.
+Local Open Scope Z_scope.
+
+(* ---- day of week: computable, lands on the weekday and time asked for, within
+   (-1 day, 7 days], and no matching moment between now and the designated one
+   is skipped (the sharp form of "no further than one period ahead") ---- *)
+Theorem C20_dow : forall (id : nat) dow t now booted,
+  valid_clockb now = true -> n_y now <= 9998 -> 0 <= dow <= 6 -> valid_timeb t = true ->
+  exists dd, 0 <= dd <= 6 /\
+    let o := ord (n_y now) (n_m now) (n_d now) + dd in
+    let then_ := mkI o (sod_of t) 0 in
+    let delta := inst_us then_ - inst_us (now_inst now) in
+    delay booted (id, dow_moment dow t) now = (Ok then_ delta, booted) /\
+    weekday o = dow /\
+    - DAYUS < delta <= 7 * DAYUS /\
+    (forall o', weekday o' = dow ->
+       ~ (inst_us (now_inst now) <= inst_us (mkI o' (sod_of t) 0) < inst_us then_)).
+Proof. exact dl_dow. Qed.
+Print Assumptions C20_dow.
+
+Example C20_dow_example :
+  valid_clockb DelayExamples.mon = true /\ valid_timeb (1, 0, 0) = true /\
+  fst (delay [] (1%nat, dow_moment 0 (1, 0, 0)) DelayExamples.mon)
+  = Ok (mkI 739677 3600 0) (120 * US).
+Proof. vm_compute. repeat split. Qed.
+
+(* ---- boot: the first evaluation is due at once, every later evaluation in
+   the same process is not knowable (whatever else was evaluated meanwhile:
+   booted only grows) ---- *)
+Theorem C20_boot : forall e now booted, m_boot (snd e) <> None ->
+  (is_booted e booted = false ->
+   delay booted e now = (Ok (now_inst now) 0, booted ++ [e])) /\
+  (is_booted e booted = true -> delay booted e now = (NotKnowable, booted)) /\
+  is_booted e (snd (delay booted e now)) = true /\
+  (forall b' now', is_booted e b' = true -> delay b' e now' = (NotKnowable, b')) /\
+  (forall e' now', is_booted e booted = true ->
+     is_booted e (snd (delay booted e' now')) = true).
+Proof.
+  intros e now booted H. destruct (dl_boot e now booted H) as [A [B [C D]]].
+  repeat split; try assumption. intros e' now' X. apply dl_is_booted_grows. exact X.
+Qed.
+Print Assumptions C20_boot.
+
+Example C20_boot_example :
+  let e := (1%nat, boot_moment true) in
+  let r1 := delay [] e DelayExamples.mon in
+  fst r1 = Ok (now_inst DelayExamples.mon) 0 /\
+  fst (delay (snd r1) e DelayExamples.mon) = NotKnowable.
+Proof. vm_compute. split; reflexivity. Qed.
+
+(* ---- date: designates exactly the given date and time ---- *)
+Theorem C20_day : forall (id : nat) y m d t now booted,
+  valid_dateb y m d = true -> valid_timeb t = true ->
+  let then_ := mkI (ord y m d) (sod_of t) 0 in
+  delay booted (id, day_moment (y, m, d) t) now
+  = (Ok then_ (inst_us then_ - inst_us (now_inst now)), booted).
+Proof. exact dl_day. Qed.
+Print Assumptions C20_day.
+
+Example C20_day_example : valid_dateb 2024 2 29 = true /\ valid_dateb 2023 2 29 = false.
+Proof. vm_compute. split; reflexivity. Qed.
+
+(* ---- day of month ----
+   The full statement (for dom in 1..31: computable, designates a valid date
+   with that day of month and the given time, and no matching moment between
+   now and the designated one is skipped) is FALSE for the code as it is. *)
+Definition dom_spec_holds (now : clock) (dom : Z) (t : Z * Z * Z) : Prop :=
+  exists th delta,
+    fst (delay [] (1%nat, dom_moment dom t) now) = Ok th delta /\
+    (exists y m, valid_dateb y m dom = true /\ th = mkI (ord y m dom) (sod_of t) 0) /\
+    (forall y m, valid_dateb y m dom = true ->
+       ~ (inst_us (now_inst now) <= inst_us (mkI (ord y m dom) (sod_of t) 0) < inst_us th)).
+
+(* witness 1 (finding dom-next-month-overflow): dom = 31 on 31 March 2026 ->
+   datetime(2026, 4, 31) raises ValueError.
+   witness 2 (finding dom-skips-current-month): dom = 20 on 15 March 2026
+   01:00 -> 20 April, although 20 March 01:00 is still ahead. *)
+Theorem C20_dom_refuted :
+  (exists now dom t,
+      valid_clockb now = true /\ n_y now <= 9998 /\ 1 <= dom <= 31 /\ valid_timeb t = true /\
+      fst (delay [] (1%nat, dom_moment dom t) now) = Err ValueError /\
+      ~ dom_spec_holds now dom t) /\
+  (exists now dom t,
+      valid_clockb now = true /\ n_y now <= 9998 /\ 1 <= dom <= 31 /\ valid_timeb t = true /\
+      fst (delay [] (1%nat, dom_moment dom t) now)
+      = Ok (mkI (ord 2026 4 20) 3600 0) (36 * DAYUS) /\
+      ~ dom_spec_holds now dom t).
+Proof.
+  split.
+  - exists (mkNow 2026 3 31 0 0), 31, (1, 0, 0).
+    repeat split; try (vm_compute; congruence); try lia.
+    intros [th [delta [E _]]]. vm_compute in E. discriminate.
+  - exists (mkNow 2026 3 15 3600 0), 20, (1, 0, 0).
+    repeat split; try (vm_compute; congruence); try lia.
+    intros [th [delta [E [_ S]]]].
+    assert (T : th = mkI (ord 2026 4 20) 3600 0) by (vm_compute in E; vm_compute; congruence).
+    subst th. apply (S 2026 3); [vm_compute; reflexivity|]. vm_compute. split; congruence.
+Qed.
+Print Assumptions C20_dom_refuted.
+
+(* what does hold: for dom <= 28 the delay is always computable, designates day
+   dom of the NEXT month at the given time, and lies in the future *)
+(* _partial: missing w.r.t. the full statement -- dom 29..31 (refuted above) and
+   "this month's occurrence is not skipped" (refuted above) *)
+Theorem C20_dom_partial : forall (id : nat) dom t now booted,
+  valid_clockb now = true -> n_y now <= 9998 -> 1 <= dom <= 28 -> valid_timeb t = true ->
+  let y' := next_y (n_y now) (n_m now) in
+  let m' := next_m (n_m now) in
+  let then_ := mkI (ord y' m' dom) (sod_of t) 0 in
+  let delta := inst_us then_ - inst_us (now_inst now) in
+  valid_dateb y' m' dom = true /\
+  delay booted (id, dom_moment dom t) now = (Ok then_ delta, booted) /\
+  0 < delta.
+Proof. exact dl_dom_partial. Qed.
+Print Assumptions C20_dom_partial.
+
+(* the other half of finding dom-skips-current-month, as a theorem about the
+   code: a computable day-of-month event with dom >= 2 is NEVER inside the
+   300 s firing window, at any instant: defer() never queues it *)
+Theorem C20_dom_never_due : forall (id : nat) dom t now booted th delta b',
+  valid_clockb now = true -> 2 <= dom ->
+  delay booted (id, dom_moment dom t) now = (Ok th delta, b') ->
+  WINDOW_US < delta.
+Proof. exact dl_dom_never_due. Qed.
+Print Assumptions C20_dom_never_due.
+
+Example C20_dom_example :
+  valid_clockb (mkNow 2026 12 31 86399 999999) = true /\
+  fst (delay [] (1%nat, dom_moment 1 (0, 4, 59)) (mkNow 2026 12 31 86399 999999))
+  = Ok (mkI (ord 2027 1 1) 299 0) (299 * US + 1).
+Proof. vm_compute. split; reflexivity. Qed.
+
+(* ---- defer(): a due event queues its node ---- *)
+(* pipeline not paused, defer() ends without exception; a node of `per` that is
+   neither running nor waiting and has a (non-boot) event whose delay is
+   computable and <= 300 s ends up in que, waiting, with the all-targets marker
+   (analysis) or every known target in todo *)
+Theorem C20_due_queues : forall now targets st st' id p th d,
+  s_paused st = false ->
+  defer now targets st = (st', None) ->
+  In id (s_per st) -> skipped (nd_status (s_node st id)) = false ->
+  In p (nd_period (s_node st id)) -> m_boot (snd p) = None ->
+  fst (delay [] p now) = Ok th d -> d <= WINDOW_US ->
+  In id (s_que st') /\ nd_status (s_node st' id) = St_waiting /\
+  (nd_asp (s_node st' id) = true -> In ALL (nd_todo (s_node st' id))) /\
+  (nd_asp (s_node st' id) = false -> incl targets (nd_todo (s_node st' id))).
+Proof. exact dl_due_queues. Qed.
+Print Assumptions C20_due_queues.
+
+(* ... and it is there once (repair 399dc9a), whatever the multiplicity of the
+   node in `per` / of the event in `period` and however many of its events are
+   due together; an exception or a paused pipeline does not change that *)
+Theorem C20_due_once : forall now targets st st' e,
+  defer now targets st = (st', e) -> NoDup (s_que st) -> NoDup (s_que st').
+Proof. exact dl_due_once. Qed.
+Print Assumptions C20_due_once.
+
+(* non-vacuity of both: analysis node 6 located twice (per = [6;6], period =
+   [e;e]) with a due weekly event, task node 1 with a boot and a due weekly
+   event: both queued, once, with ALL resp. the targets *)
+Definition ex_nodes (k : nat) : node :=
+  if Nat.eqb k 6 then init_node true 3 else init_node false 0.
+Definition ex_weekly : event := (6%nat, dow_moment 0 (1, 0, 0)).
+Definition ex_st0 : sched :=
+  attach [(6%nat, ex_weekly); (6%nat, ex_weekly);
+          (1%nat, (1%nat, boot_moment true)); (1%nat, (1%nat, dow_moment 0 (0, 4, 59)))]
+         (init_sched ex_nodes false).
+Example C20_due_example :
+  let '(st', e) := defer DelayExamples.mon [1%nat; 2%nat] ex_st0 in
+  e = None /\ s_que st' = [1%nat; 6%nat] /\
+  nd_todo (s_node st' 6%nat) = [ALL] /\ nd_todo (s_node st' 1%nat) = [1%nat; 2%nat] /\
+  s_per st' = [6%nat; 6%nat; 1%nat; 1%nat].
+Proof. vm_compute. repeat split. Qed.
+
+(* ---- recurrence ----
+   "while the pipeline stays up a weekly event fires again each period" is
+   FALSE for the code as it is (finding periodic-never-refires): after the
+   first firing and its completion the node's status is `waiting`; defer()
+   skips it at EVERY later instant, queues nothing and arms no timer. *)
+Definition wk_event : event := (1%nat, dow_moment 0 (12, 0, 0)).
+Definition wk_start : clock := mkNow 2026 3 2 (11 * 3600 + 58 * 60) 0.  (* Monday 11:58 *)
+Definition wk_st0 : sched := attach [(1%nat, wk_event)] (init_sched ex_nodes false).
+Definition wk_fired : sched := fst (defer wk_start [1%nat] wk_st0).
+Definition wk_done : sched := fst (complete 1%nat 1%nat (dispatch wk_fired)).
+
+Theorem C20_recurs_refuted :
+  (* the event fires the first time ... *)
+  s_que wk_fired = [1%nat] /\ nd_todo (s_node wk_fired 1%nat) = [1%nat] /\
+  (* ... runs and completes ... *)
+  s_que wk_done = [] /\ nd_status (s_node wk_done 1%nat) = St_waiting /\
+  s_timers wk_done = [] /\
+  (* ... and never again: at every later instant defer() changes nothing *)
+  (forall now, defer now [1%nat] wk_done = (wk_done, None)) /\
+  ~ (exists now, In 1%nat (s_que (fst (defer now [1%nat] wk_done)))).
+Proof.
+  assert (N : forall now, defer now [1%nat] wk_done = (wk_done, None)).
+  { intro now. apply dl_defer_noop; [vm_compute; reflexivity|].
+    vm_compute. repeat constructor. }
+  repeat split; try (vm_compute; reflexivity); try exact N.
+  intros [now I]. rewrite N in I. vm_compute in I. exact I.
+Qed.
+Print Assumptions C20_recurs_refuted.
+
+(* what does hold about recurrence (_partial: only until the first firing):
+   once every periodic node is waiting or running, defer() is the identity --
+   the general form of the refutation above; and before the first firing a
+   not-yet-due event arms exactly one timer (example below) *)
+Theorem C20_recurs_partial : forall now targets st,
+  s_paused st = false ->
+  Forall (fun id => skipped (nd_status (s_node st id)) = true) (s_per st) ->
+  defer now targets st = (st, None).
+Proof. exact dl_defer_noop. Qed.
+Print Assumptions C20_recurs_partial.
+
+Example C20_rearm_example :
+  (* Monday 00:58, weekly event Monday 12:00: not due, one timer of 39720 s *)
+  let st' := fst (defer DelayExamples.mon [1%nat] wk_st0) in
+  s_que st' = [] /\ s_timers st' = [39720] /\
+  nd_status (s_node st' 1%nat) = St_delayed.
+Proof. vm_compute. repeat split. Qed.
